@@ -1,6 +1,6 @@
 #!/bin/sh
 # usage: tools/verify_mutant.sh C07   -- confirms a sub-agent's mutant in its scratch worktree /tmp/wt/C07
-ID="$1"; WT=/tmp/wt/$ID
+ID="$1"; WT=${WTROOT:-/tmp/wt}/$ID
 export GOFLAGS=-mod=mod GOPROXY=off GOSUMDB=off GOTOOLCHAIN=local
 cd $WT || exit 2
 [ -s patch.diff ] || { echo "no patch.diff"; exit 2; }
@@ -9,7 +9,7 @@ git apply --check patch.diff || { echo "patch does not apply to clean tree"; exi
 git apply patch.diff
 go build ./... || { echo "BUILD FAILS"; exit 1; }
 pk=$(go list ./... | grep -v verifdemo)
-if go test -vet=off -count=1 $pk >/tmp/wt/$ID.suite.log 2>&1; then echo "suite: PASS with change"; else echo "suite: FAIL with change"; tail -5 /tmp/wt/$ID.suite.log; fi
-if go test -vet=off -count=1 ./verifdemo/ >/tmp/wt/$ID.demo_with.log 2>&1; then echo "demo with change: PASS (bad)"; else echo "demo with change: FAIL (good)"; fi
+if go test -vet=off -count=1 $pk >${WTROOT:-/tmp/wt}/$ID.suite.log 2>&1; then echo "suite: PASS with change"; else echo "suite: FAIL with change"; tail -5 ${WTROOT:-/tmp/wt}/$ID.suite.log; fi
+if go test -vet=off -count=1 ./verifdemo/ >${WTROOT:-/tmp/wt}/$ID.demo_with.log 2>&1; then echo "demo with change: PASS (bad)"; else echo "demo with change: FAIL (good)"; fi
 git apply -R patch.diff
-if go test -vet=off -count=1 ./verifdemo/ >/tmp/wt/$ID.demo_without.log 2>&1; then echo "demo without change: PASS (good)"; else echo "demo without change: FAIL (bad)"; tail -5 /tmp/wt/$ID.demo_without.log; fi
+if go test -vet=off -count=1 ./verifdemo/ >${WTROOT:-/tmp/wt}/$ID.demo_without.log 2>&1; then echo "demo without change: PASS (good)"; else echo "demo without change: FAIL (bad)"; tail -5 ${WTROOT:-/tmp/wt}/$ID.demo_without.log; fi
